@@ -36,8 +36,9 @@ Monitors (written against the property statements, evaluated after EVERY event):
         adopted before   restart:older-term-append-accepted, restart:older-term-vote-granted
 
 Private attributes read: `_SyncObj__raftLog` (through sim.log_of), `_SyncObj__votedForNodeId` (coverage
-only), `_SyncObj__commandsWaitingReply` (is a request with the id of an incoming stale reply pending).  Written: none.  `sim._send` is shadowed by an instance attribute for the duration of one `*_k`
-event (kill right after the n-th send) and removed again.
+only), `_SyncObj__commandsWaitingReply` (is a request with the id of an incoming stale reply pending).  Written: none.  `sim._send` is shadowed by an instance attribute of the runner's own Sim (counts
+the messages of one step: kill right after the n-th send for `*_k` events; abandon the schedule when one
+step hands over more than FLOOD_LIMIT messages).
 """
 import collections
 import hashlib
@@ -75,6 +76,16 @@ def for_property(pid, sig):
 
 class Killed(BaseException):
     """the process dies right after handing its n-th message of this step to the transport"""
+
+
+class Flood(BaseException):
+    """one handler call handed more than FLOOD_LIMIT messages to the transport: with the simulator's clock
+    frozen inside a step this is a loop of the real code that only the wall clock would end (seen: the leader
+    re-sends `serialized: None` to a follower that needs a snapshot while the serializer is busy, until
+    appendEntriesPeriod has passed).  A progress matter, not C06/C07: the schedule is abandoned and counted."""
+
+
+FLOOD_LIMIT = 20000
 
 
 # ------------------------------------------------------------------------------------------------------
@@ -117,6 +128,23 @@ class Runner(object):
         self.fwd = collections.defaultdict(list)       # (requester, request_id) -> [[generation, dest, answered], ...]
         self.reply_gen = {}                            # id(reply message) -> generation of the requester it answers
         self.tainted = set()                           # commands whose callback got the reply of an older request
+        self.aborted = False
+        self._n_send = 0
+        self._arm = None                               # [node, nth, count]: kill right after that node's nth send
+        self.sim._send = self._send_hook
+
+    def _send_hook(self, a, b, msg):
+        sim = self.sim
+        r = type(sim)._send(sim, a, b, msg)
+        self._n_send += 1
+        if self._n_send > FLOOD_LIMIT:
+            raise Flood()
+        arm = self._arm
+        if arm is not None and a == arm[0] and r:
+            arm[2] += 1
+            if arm[2] == arm[1]:
+                raise Killed()
+        return r
 
     # -- helpers -------------------------------------------------------------------------------------
     def close(self):
@@ -140,7 +168,22 @@ class Runner(object):
     # -- the events ----------------------------------------------------------------------------------
     def ev(self, *e):
         """apply one atomic event (skipped when it cannot happen in the current state); monitors run after it"""
-        e = list(e)
+        if self.aborted:
+            return False
+        self._n_send = 0
+        try:
+            return self._ev(list(e))
+        except Flood:
+            self.sim.cur = None
+            self._arm = None
+            self.aborted = True
+            self.cov["aborted:send-flood-in-one-step"] += 1
+            for q in self.sim.chan.values():
+                q.clear()
+            del self.sim.sent[self.n_sent:]
+            return False
+
+    def _ev(self, e):
         sim = self.sim
         k = e[0]
         ctx = {}
@@ -236,24 +279,14 @@ class Runner(object):
     def _killing(self, node, nth, fn):
         """run fn; `node` dies right after its nth successful send of this step (if it sends that many)"""
         sim = self.sim
-        orig = type(sim)._send
-        cnt = [0]
-
-        def wrapped(a, b, msg):
-            r = orig(sim, a, b, msg)
-            if a == node and r:
-                cnt[0] += 1
-                if cnt[0] == nth:
-                    raise Killed()
-            return r
-        sim._send = wrapped
+        self._arm = [node, nth, 0]
         died = False
         try:
             fn()
         except Killed:
             died = True
         finally:
-            del sim._send
+            self._arm = None
             sim.cur = None
         if died:
             self._scan_sent()          # what was handed over counts as said
@@ -533,6 +566,8 @@ class Runner(object):
 
     def elect(self, among=None, max_rounds=200):
         for _ in range(max_rounds):
+            if self.aborted:
+                return None
             l = self.sim.leader(among or self.V_live())
             if l is not None:
                 return l
@@ -542,6 +577,8 @@ class Runner(object):
     def finale(self):
         """heal everything, converge, push two more commands through, then the end-of-run statements"""
         sim = self.sim
+        if self.aborted:
+            return
         for i in self.V:
             if not self.live(i):
                 self.ev("restart", i)
@@ -556,7 +593,7 @@ class Runner(object):
         for phase in range(2):
             for _ in range(24):
                 L = self.elect(max_rounds=80)
-                if L is None:
+                if L is None or self.aborted:
                     break
                 self.rounds(2)
                 o = sim.objs[L]
@@ -654,7 +691,7 @@ def random_schedule(r, rng, n_events):
         if rng.random() < 0.5:
             r.ev("probe_vote", i, "*")
 
-    while len(r.events) < n_events and not r.viol:
+    while len(r.events) < n_events and not r.viol and not r.aborted:
         live = r.V_live()
         dead = [i for i in V if i not in sim.objs]
         x = rng.random()
